@@ -180,7 +180,17 @@ func (e *engine) Generate(seed uint64, idx int, tier string, avoid []harness.Fin
 		c.Scen = "s7"
 		c.R = 2 + r.Intn(3) // defining routines, one qualifier each
 		c.Iter = 1 + r.Intn(3)
-	case x < 86:
+	case x < 85:
+		// S9 (seeded changes C17-k1, C17-k2): routines call ONE generic
+		// function with arguments of different classes; an :around method on
+		// t is part of every effective method; the routines are started from
+		// inside a dolist / dovector, whose scope they keep using
+		c.Scen = "s9"
+		c.R = 2 + r.Intn(3)
+		c.Iter = 1 + r.Intn(5)
+		c.Kind = []string{"straight", "dolist", "dolist", "dovector"}[r.Intn(4)]
+		c.Nested = r.Pct(40) // a second :around, on one argument's own class
+	case x < 88:
 		c.Scen = "s8"
 		c.R = 1 + r.Intn(3) // jobs, each calls its closure from a routine
 		c.Iter = 1 + r.Intn(4)
@@ -448,6 +458,42 @@ func (c *Case) program(sfx string) program {
 			} else {
 				fmt.Fprintf(&b, " (let ((sp (make-splitter%s))) (run (progn (sim-emit \"split\" %d (funcall sp %d)) (sim-emit \"split\" %d (funcall sp %d)) (channel-push fin %d))))\n", sfx, t, c.Iter, t, c.Iter, t)
 			}
+		}
+		fmt.Fprintf(&b, " (dotimes (i %d) (channel-pop fin)) nil)\n", c.R)
+		return program{setup: setup.String(), main: b.String()}
+	}
+	if c.Scen == "s9" {
+		vals := []string{"1", `"s"`, "'sym", "1.5"}
+		types := []string{"fixnum", "string", "symbol", "float"}
+		var setup strings.Builder
+		fmt.Fprintf(&setup, "(defgeneric sk%s (a))\n(defmethod sk%s :around ((a t)) (list 'around (call-next-method)))\n", sfx, sfx)
+		for _, ty := range types {
+			fmt.Fprintf(&setup, "(defmethod sk%s ((a %s)) '%s)\n", sfx, ty, ty)
+		}
+		if c.Nested {
+			fmt.Fprintf(&setup, "(defmethod sk%s :around ((a string)) (list 'inner (call-next-method)))\n", sfx)
+		}
+		fmt.Fprintf(&b, "(let ((fin (make-channel 64)) (vals (list %s)))\n", strings.Join(vals, " "))
+		body := func(me string) string {
+			return fmt.Sprintf("(progn (dotimes (i %d) (sim-emit \"kind\" %s (sk%s (nth %s vals)))) (channel-push fin %s))", c.Iter, me, sfx, me, me)
+		}
+		switch c.Kind {
+		case "straight":
+			for t := 0; t < c.R; t++ {
+				fmt.Fprintf(&b, " (let ((me %d)) (run %s))\n", t, body("me"))
+			}
+		default:
+			var ids []string
+			for t := 0; t < c.R; t++ {
+				ids = append(ids, fmt.Sprint(t))
+			}
+			head := fmt.Sprintf("dolist (tv '(%s))", strings.Join(ids, " "))
+			if c.Kind == "dovector" {
+				head = fmt.Sprintf("dovector (tv (vector %s))", strings.Join(ids, " "))
+			}
+			// the routine keeps looking variables up through the loop's
+			// scope while the loop goes on rebinding its variable
+			fmt.Fprintf(&b, " (%s (let ((me tv)) (run %s)))\n", head, body("me"))
 		}
 		fmt.Fprintf(&b, " (dotimes (i %d) (channel-pop fin)) nil)\n", c.R)
 		return program{setup: setup.String(), main: b.String()}
@@ -784,6 +830,8 @@ func (e *engine) Execute(raw json.RawMessage) (vd harness.Verdict) {
 		v = c.judgeS4(out, p, sfx, &vd)
 	case "s5":
 		v = c.judgeS5(out)
+	case "s9":
+		v = c.judgeS9(out)
 	case "s7":
 		v = c.judgeS7(out)
 	case "s8":
@@ -1044,6 +1092,34 @@ func (c *Case) judgeS8(out runOut) *harness.Violation {
 	for t := 0; t < c.R; t++ {
 		if calls[t] != 2 {
 			return viol("harness", "job %d reported %d calls, expected 2", t, calls[t])
+		}
+	}
+	return nil
+}
+
+// judgeS9: every call of the shared generic function ran the :around
+// method(s) and the primary method of the caller's own argument class.
+func (c *Case) judgeS9(out runOut) *harness.Violation {
+	types := []string{"fixnum", "string", "symbol", "float"}
+	calls := map[int]int{}
+	for _, m := range out.marks {
+		f := fields(m.text)
+		if f[0] != "kind" {
+			continue
+		}
+		t := atoi(f[1])
+		calls[t]++
+		want := fmt.Sprintf("(around %s)", types[t])
+		if c.Nested && types[t] == "string" {
+			want = "(inner (around string))"
+		}
+		if got := strings.Join(f[2:], " "); got != want {
+			return viol("wrong-dispatch", "routine %d called the generic function with a %s and got %s, expected %s: no sequential execution gives that", t, types[t], got, want)
+		}
+	}
+	for t := 0; t < c.R; t++ {
+		if calls[t] != c.Iter {
+			return viol("lost-call", "routine %d reported %d of its %d calls", t, calls[t], c.Iter)
 		}
 	}
 	return nil
